@@ -1,5 +1,1624 @@
-//! C20 - monitor not built yet.
+//! C20 - Belief is projected: silence is not rejection, repetition is not support.
+//!
+//! Monitors (DESIGN.md C20), all through the executor (KML writes, KQL `BELIEF` / `BELIEF SLOT`):
+//!  * reference model: eligibility (lifecycle, validity window, admissible modes of the policy the
+//!    answer names) -> connected components "same actor or shared evidence id" per side (support /
+//!    opposition, rival-value support of a functional predicate = opposition) -> score
+//!    1 - prod(1 - max confidence per component) -> status from the policy thresholds;
+//!  * permutation monitor: the same multiset recorded in several orders gives the same answer;
+//!  * algebraic laws on answers: no eligible assertion => insufficient; rejected => opposition
+//!    group; a repeat / shared-evidence addition never adds a group; scores in [0,1]; policy id
+//!    travels with the answer and changes when a threshold is overridden;
+//!  * bounded-exhaustive tier: all multisets (up to renaming of actors / evidence ids) of small
+//!    size over actors x evidence subsets x stances x confidences x {active, retracted}, every
+//!    distinct recording order.
+
+use anda_cognitive_nexus::CognitiveNexus;
+use serde_json::{Map, Value, json};
+use std::cell::RefCell;
+use std::collections::{BTreeMap, BTreeSet};
+use v_nexus::nx1920::*;
+use vcore::{Rng, Run, Stats};
+
+// ---------------------------------------------------------------------------------------------
+// the generated world
+
+const N_ACT: usize = 4; // actors 0..2 are used by generated multisets, 3 is the "new voice" of the add laws
+const N_EV: usize = 4; // evidence ids 0..2 generated, 3 reserved for the add laws
+const N_VAL: usize = 3; // value 0 = the proposition under test, 1..2 = rival values
+
+#[derive(Clone, Copy, PartialEq, Eq, Hash, Debug, PartialOrd, Ord)]
+enum Stance {
+    Support,
+    Reject,
+    Uncertain,
+}
+impl Stance {
+    fn s(self) -> &'static str {
+        match self {
+            Stance::Support => "support",
+            Stance::Reject => "reject",
+            Stance::Uncertain => "uncertain",
+        }
+    }
+}
+
+const MODES: [&str; 6] = ["observed", "stated", "inferred", "imported", "predicted", "hypothetical"];
+
+#[derive(Clone, Copy, PartialEq, Eq, Hash, Debug, PartialOrd, Ord)]
+enum Life {
+    Active,
+    Retracted,
+    /// superseded by the assertion with this index of the multiset (same proposition)
+    Superseded(usize),
+    /// record archived (`ARCHIVE :a`): out of ordinary recall
+    Archived,
+}
+
+#[derive(Clone, Debug, PartialEq)]
+struct Asr {
+    actor: Option<u8>,
+    ev: u8,
+    tgt: u8,
+    stance: Stance,
+    conf: Option<f64>,
+    mode: usize,
+    /// validity window in grid steps (even numbers), None = open
+    from: Option<u8>,
+    until: Option<u8>,
+    life: Life,
+    /// `ASSERT` sugar instead of `CREATE ASSERTION`
+    sugar: bool,
+    /// evidence ids cited with role "challenge" (long form only)
+    challenge: u8,
+}
+
+impl Asr {
+    fn simple(actor: u8, ev: u8, stance: Stance, conf: f64, life: Life) -> Asr {
+        Asr {
+            actor: Some(actor),
+            ev,
+            tgt: 0,
+            stance,
+            conf: Some(conf),
+            mode: 0,
+            from: None,
+            until: None,
+            life,
+            sugar: false,
+            challenge: 0,
+        }
+    }
+    /// content descriptor (what an assertion *is*, independent of ids and order)
+    fn desc(&self) -> String {
+        format!(
+            "a{:?}/e{:03b}/t{}/{}/c{:?}/{}/w{:?}-{:?}/{:?}",
+            self.actor,
+            self.ev,
+            self.tgt,
+            self.stance.s(),
+            self.conf,
+            MODES[self.mode],
+            self.from,
+            self.until,
+            match self.life {
+                Life::Superseded(_) => "Superseded".to_string(),
+                l => format!("{l:?}"),
+            }
+        )
+    }
+}
+
+/// Time grid: step k is 2001-03-10T(03+k/2):(00|30):00Z, k in 0..=16. Windows use even steps,
+/// evaluation times odd steps (never on a boundary) unless a boundary case is wanted.
+fn grid_time(step: u8, spelling: u8) -> String {
+    let minutes = 3 * 60 + (step as i32) * 30;
+    let (off_min, suffix) = match spelling % 4 {
+        0 => (0, "Z".to_string()),
+        1 => (8 * 60, "+08:00".to_string()),
+        2 => (-150, "-02:30".to_string()),
+        _ => (0, "+00:00".to_string()),
+    };
+    let local = minutes + off_min;
+    let frac = if spelling % 8 >= 4 { ".000" } else { "" };
+    format!("2001-03-10T{:02}:{:02}:00{}{}", local / 60, local % 60, frac, suffix)
+}
+fn grid_canonical(step: u8) -> String {
+    let minutes = 3 * 60 + (step as i32) * 30;
+    format!("2001-03-10T{:02}:{:02}:00.000Z", minutes / 60, minutes % 60)
+}
+
+#[derive(Clone, Debug, Default)]
+struct PolicyReq {
+    name: Option<&'static str>,
+    accept: Option<f64>,
+    material: Option<f64>,
+    modes: Option<Vec<usize>>,
+}
+impl PolicyReq {
+    fn overridden(&self) -> bool {
+        self.accept.is_some() || self.material.is_some() || self.modes.is_some()
+    }
+    fn clause(&self) -> String {
+        let mut parts = vec![];
+        if let Some(n) = self.name {
+            parts.push(format!("policy: \"{n}\""));
+        }
+        if let Some(a) = self.accept {
+            parts.push(format!("accept: {a}"));
+        }
+        if let Some(m) = self.material {
+            parts.push(format!("material: {m}"));
+        }
+        if let Some(ms) = &self.modes {
+            let l: Vec<String> = ms.iter().map(|m| format!("\"{}\"", MODES[*m])).collect();
+            parts.push(format!("modes: [{}]", l.join(", ")));
+        }
+        if parts.is_empty() { String::new() } else { format!(" WITH EPISTEMIC {{{}}}", parts.join(", ")) }
+    }
+}
+
+#[derive(Clone, Debug)]
+struct Query {
+    /// grid step of FOR TIME, None = no FOR TIME clause (evaluated "now", after the whole grid)
+    at: Option<u8>,
+    spelling: u8,
+    policy: PolicyReq,
+    /// 0 = BELIEF (id: :p), 1 = ?p PROPOSITION (...) + BELIEF (?p), 2 = BELIEF (s, "pred", v), 3 = BELIEF SLOT
+    form: u8,
+}
+
+/// The published description of a named policy (`DESCRIBE EPISTEMIC POLICY`).
+#[derive(Clone, Debug)]
+struct PolicyDesc {
+    id: String,
+    version: Value,
+    modes: Vec<usize>,
+    accept: f64,
+    material: f64,
+    unstated: f64,
+    expand: bool,
+}
+
+// ---------------------------------------------------------------------------------------------
+// reference model (written from the specification's description of the projection)
+
+#[derive(Debug, Default, Clone)]
+struct RefAns {
+    sup: BTreeSet<usize>,
+    opp: BTreeSet<usize>,
+    unc: BTreeSet<usize>,
+    /// ineligible assertions about the target: must be listed; value = applicable reason classes
+    excl_must: BTreeMap<usize, BTreeSet<&'static str>>,
+    /// ineligible assertions about rivals: may be listed
+    excl_may: BTreeMap<usize, BTreeSet<&'static str>>,
+    sup_groups: usize,
+    opp_groups: usize,
+    sup_score: f64,
+    opp_score: f64,
+    statuses: Vec<&'static str>,
+    /// a score is within 1e-9 of a threshold: status not compared
+    near_tie: bool,
+    /// evaluation time equals a window boundary of some assertion: spec silent, not compared
+    boundary: bool,
+    /// some component has >= 3 members of which one joined two otherwise separate groups
+    bridge: bool,
+    rival_opposition: bool,
+    /// grouping depends on how assertions without an actor are treated
+    nameless_ambiguous: bool,
+}
+
+struct Uf(Vec<usize>);
+impl Uf {
+    fn find(&mut self, x: usize) -> usize {
+        let mut r = x;
+        while self.0[r] != r {
+            r = self.0[r];
+        }
+        self.0[x] = r;
+        r
+    }
+    fn union(&mut self, a: usize, b: usize) {
+        let (a, b) = (self.find(a), self.find(b));
+        if a != b {
+            self.0[a] = b;
+        }
+    }
+}
+
+/// `nameless_one`: two assertions without `asserted_by` count as the same (nameless) actor.
+fn adjacent(a: &Asr, b: &Asr, nameless_one: bool) -> bool {
+    ((a.actor.is_some() || nameless_one) && a.actor == b.actor) || (a.ev & b.ev) != 0
+}
+
+/// Connected components of `members` under "same actor or shared evidence"; returns
+/// (number of groups, score, bridge seen).
+fn side(asrs: &[Asr], members: &BTreeSet<usize>, unstated: f64, nameless_one: bool) -> (usize, f64, bool) {
+    let idx: Vec<usize> = members.iter().copied().collect();
+    let mut uf = Uf((0..idx.len()).collect());
+    for i in 0..idx.len() {
+        for j in 0..i {
+            if adjacent(&asrs[idx[i]], &asrs[idx[j]], nameless_one) {
+                uf.union(i, j);
+            }
+        }
+    }
+    let mut maxes: BTreeMap<usize, f64> = BTreeMap::new();
+    let mut sizes: BTreeMap<usize, Vec<usize>> = BTreeMap::new();
+    for i in 0..idx.len() {
+        let r = uf.find(i);
+        let c = asrs[idx[i]].conf.unwrap_or(unstated).clamp(0.0, 1.0);
+        let e = maxes.entry(r).or_insert(0.0);
+        if c > *e {
+            *e = c;
+        }
+        sizes.entry(r).or_default().push(i);
+    }
+    let mut prod = 1.0;
+    for m in maxes.values() {
+        prod *= 1.0 - m;
+    }
+    // bridge: a member whose removal splits its component (an articulation point joining two
+    // members that are not adjacent to each other)
+    let mut bridge = false;
+    for comp in sizes.values() {
+        if comp.len() < 3 {
+            continue;
+        }
+        for &x in comp {
+            for &y in comp {
+                for &z in comp {
+                    if x != y && y != z && x != z
+                        && adjacent(&asrs[idx[x]], &asrs[idx[y]], nameless_one)
+                        && adjacent(&asrs[idx[x]], &asrs[idx[z]], nameless_one)
+                        && !adjacent(&asrs[idx[y]], &asrs[idx[z]], nameless_one)
+                    {
+                        bridge = true;
+                    }
+                }
+            }
+        }
+    }
+    (maxes.len(), 1.0 - prod, bridge)
+}
+
+/// `at`: Some(step) or None = "now" (after the grid).
+fn reference(asrs: &[Asr], functional: bool, target: u8, at: Option<u8>, pol: &PolicyDesc) -> RefAns {
+    let mut r = RefAns::default();
+    for (i, a) in asrs.iter().enumerate() {
+        let mut why: BTreeSet<&'static str> = BTreeSet::new();
+        match a.life {
+            Life::Active => {}
+            Life::Retracted => {
+                why.insert("retracted");
+            }
+            Life::Superseded(_) => {
+                why.insert("superseded");
+            }
+            Life::Archived => {
+                why.insert("visibility");
+            }
+        }
+        let t = at.map(|s| s as i32).unwrap_or(i32::MAX);
+        if let Some(f) = a.from {
+            if (f as i32) > t {
+                why.insert("temporal");
+            }
+            if f as i32 == t {
+                r.boundary = true;
+            }
+        }
+        if let Some(u) = a.until {
+            if (u as i32) < t {
+                why.insert("temporal");
+            }
+            if u as i32 == t {
+                r.boundary = true;
+            }
+        }
+        if !pol.modes.contains(&a.mode) {
+            why.insert("mode");
+        }
+        let about_target = a.tgt == target;
+        if !why.is_empty() {
+            if about_target {
+                r.excl_must.insert(i, why);
+            } else {
+                r.excl_may.insert(i, why);
+            }
+            continue;
+        }
+        if about_target {
+            match a.stance {
+                Stance::Support => r.sup.insert(i),
+                Stance::Reject => r.opp.insert(i),
+                Stance::Uncertain => r.unc.insert(i),
+            };
+        } else if functional && pol.expand && a.stance == Stance::Support {
+            r.opp.insert(i);
+            r.rival_opposition = true;
+        }
+    }
+    let (g, s, b1) = side(asrs, &r.sup, pol.unstated, false);
+    r.sup_groups = g;
+    r.sup_score = s;
+    let (g, s, b2) = side(asrs, &r.opp, pol.unstated, false);
+    r.opp_groups = g;
+    r.opp_score = s;
+    r.bridge = b1 || b2;
+    // assertions without an actor: "each its own voice" vs "one nameless actor" - not decided by
+    // the specification; where the two readings differ the grouping is not compared
+    let alt_s = side(asrs, &r.sup, pol.unstated, true);
+    let alt_o = side(asrs, &r.opp, pol.unstated, true);
+    r.nameless_ambiguous = alt_s.0 != r.sup_groups || alt_o.0 != r.opp_groups;
+    for s in [r.sup_score, r.opp_score] {
+        for th in [pol.accept, pol.material] {
+            if (s - th).abs() < 1e-9 {
+                r.near_tie = true;
+            }
+        }
+    }
+    let engaged = !r.sup.is_empty() || !r.opp.is_empty();
+    r.statuses = if !engaged {
+        if r.unc.is_empty() {
+            vec!["insufficient"]
+        } else {
+            // somebody engaged without taking a side: "uncertain" (21.7) - "insufficient" (21.8)
+            // is not excluded by the text either
+            vec!["uncertain", "insufficient"]
+        }
+    } else if r.sup_score >= pol.accept && r.opp_score < pol.material {
+        vec!["accepted"]
+    } else if r.opp_score >= pol.accept && r.sup_score < pol.material {
+        vec!["rejected"]
+    } else if r.sup_score >= pol.material && r.opp_score >= pol.material {
+        vec!["contested"]
+    } else {
+        vec!["uncertain"]
+    };
+    r
+}
+
+fn reason_class(reason: &str) -> Option<&'static str> {
+    Some(match reason {
+        "retracted" => "retracted",
+        "superseded" => "superseded",
+        "expired" | "outside_valid_time" => "temporal",
+        "hypothetical_not_requested" | "prediction_not_requested" | "policy_excluded" => "mode",
+        "not_visible" => "visibility",
+        _ => return None,
+    })
+}
+
+// ---------------------------------------------------------------------------------------------
+// per-thread Nexus fixture
+
+struct Fixture {
+    nx: CognitiveNexus,
+    actors: Vec<String>,
+    evidence: Vec<String>,
+    values: Vec<String>,
+    policies: BTreeMap<&'static str, PolicyDesc>,
+    /// subjects created so far (the Nexus is recycled when it has grown enough)
+    used: usize,
+    serial: u64,
+}
+
+thread_local! {
+    static FIX: RefCell<Option<Fixture>> = const { RefCell::new(None) };
+}
+
+static NEXUS_SERIAL: std::sync::atomic::AtomicU64 = std::sync::atomic::AtomicU64::new(0);
+
+fn mode_index(v: &Value) -> Option<usize> {
+    MODES.iter().position(|m| Some(*m) == v.as_str())
+}
+
+async fn describe_policy(nx: &CognitiveNexus, name: &str) -> Result<PolicyDesc, String> {
+    let d = exec_ok(nx, "DESCRIBE EPISTEMIC POLICY :n", &json!({"n": name})).await?;
+    let modes = d["eligible_modes"]
+        .as_array()
+        .ok_or("policy description without eligible_modes")?
+        .iter()
+        .map(|m| mode_index(m).ok_or_else(|| format!("unknown mode {m}")))
+        .collect::<Result<Vec<_>, _>>()?;
+    Ok(PolicyDesc {
+        id: d["id"].as_str().ok_or("policy description without id")?.to_string(),
+        version: d["version"].clone(),
+        modes,
+        accept: d["accept_threshold"].as_f64().ok_or("no accept_threshold")?,
+        material: d["material_threshold"].as_f64().ok_or("no material_threshold")?,
+        unstated: d["unstated_confidence_weight"].as_f64().ok_or("no unstated weight")?,
+        expand: d["conflict_set_expansion"].as_bool().ok_or("no conflict_set_expansion")?,
+    })
+}
+
+async fn new_fixture() -> Result<Fixture, String> {
+    let serial = NEXUS_SERIAL.fetch_add(1, std::sync::atomic::Ordering::Relaxed);
+    let nx = fresh_nexus(&format!("c20_{serial}")).await?;
+    let mut cmd = String::from("MUTATE {\n");
+    for i in 0..N_ACT {
+        cmd.push_str(&format!("CREATE CONCEPT ?a{i} {{ TYPE \"Person\" NAME \"actor{i}\" }}\n"));
+    }
+    for i in 0..N_VAL {
+        cmd.push_str(&format!("CREATE CONCEPT ?v{i} {{ TYPE \"Status\" NAME \"value{i}\" }}\n"));
+    }
+    for i in 0..N_EV {
+        cmd.push_str(&format!(
+            "CREATE EVIDENCE ?e{i} {{ SET FIELDS {{ evidence_class: \"tool_result\", payload: \"observation {i}\" }} }}\n"
+        ));
+    }
+    cmd.push('}');
+    let r = exec_ok(&nx, &cmd, &Value::Null).await?;
+    let h = |k: String| -> Result<String, String> {
+        r["handles"][&k].as_str().map(str::to_string).ok_or(format!("no handle {k}"))
+    };
+    let mut policies = BTreeMap::new();
+    policies.insert("baseline", describe_policy(&nx, "baseline").await?);
+    policies.insert("forecast", describe_policy(&nx, "forecast").await?);
+    Ok(Fixture {
+        actors: (0..N_ACT).map(|i| h(format!("a{i}"))).collect::<Result<_, _>>()?,
+        values: (0..N_VAL).map(|i| h(format!("v{i}"))).collect::<Result<_, _>>()?,
+        evidence: (0..N_EV).map(|i| h(format!("e{i}"))).collect::<Result<_, _>>()?,
+        nx,
+        policies,
+        used: 0,
+        serial,
+    })
+}
+
+/// Runs `f` with this thread's fixture (created on demand, recycled after `RECYCLE` subjects).
+const RECYCLE: usize = 1500;
+fn with_fixture<T>(f: impl AsyncFnOnce(&mut Fixture) -> Result<T, String>) -> Result<T, String> {
+    vcore::run::block_on(async {
+        let mut fx = match FIX.with(|c| c.borrow_mut().take()) {
+            Some(fx) if fx.used < RECYCLE => fx,
+            _ => new_fixture().await?,
+        };
+        let out = f(&mut fx).await;
+        if out.is_ok() {
+            FIX.with(|c| *c.borrow_mut() = Some(fx));
+        }
+        out
+    })
+}
+
+fn pred(functional: bool) -> &'static str {
+    if functional { "status" } else { "mentions" }
+}
+
+fn idref(id: &str) -> Value {
+    json!({"id": id})
+}
+
+/// One recorded instance of a multiset: the subject, its propositions and the assertion ids in
+/// multiset-index order.
+#[derive(Debug, Clone)]
+struct Recorded {
+    subject: String,
+    props: Vec<Option<String>>,
+    ids: Vec<String>,
+}
+
+/// KML text + parameters creating assertion `a` about proposition handle/param `prop`.
+/// `tag` makes parameter names unique inside a batch.
+fn create_stmt(fx: &Fixture, a: &Asr, tag: &str, prop: &str, tuple: &str, p: &mut Map<String, Value>, rng: &mut Rng) -> String {
+    let mut ev_terms = vec![];
+    for e in 0..N_EV {
+        if a.ev & (1 << e) != 0 {
+            let name = format!("e{e}");
+            p.insert(name.clone(), idref(&fx.evidence[e]));
+            ev_terms.push((format!(":{name}"), a.challenge & (1 << e) != 0));
+        }
+    }
+    if let Some(act) = a.actor {
+        p.insert(format!("a{act}"), idref(&fx.actors[act as usize]));
+    }
+    let conf = a.conf.map(|c| {
+        if rng.chance(1, 4) {
+            let name = format!("c{tag}");
+            p.insert(name.clone(), json!(c));
+            format!(":{name}")
+        } else {
+            format!("{c}")
+        }
+    });
+    let mut window = vec![];
+    for (k, v) in [("from", a.from), ("until", a.until)] {
+        if let Some(step) = v {
+            let name = format!("w{k}{tag}");
+            p.insert(name.clone(), json!(grid_time(step, rng.below(8) as u8)));
+            window.push(format!("{k}: :{name}"));
+        }
+    }
+    if a.sugar && a.actor.is_some() {
+        let mut m = vec![format!("by: :a{}", a.actor.unwrap()), format!("mode: \"{}\"", MODES[a.mode])];
+        if a.stance != Stance::Support || rng.bool() {
+            m.push(format!("stance: \"{}\"", a.stance.s()));
+        }
+        if let Some(c) = conf {
+            m.push(format!("confidence: {c}"));
+        }
+        if !ev_terms.is_empty() {
+            let l: Vec<String> = ev_terms.iter().map(|(t, _)| t.clone()).collect();
+            m.push(if l.len() == 1 && rng.bool() { format!("evidence: {}", l[0]) } else { format!("evidence: [{}]", l.join(", ")) });
+        }
+        if !window.is_empty() {
+            m.push(format!("valid: {{{}}}", window.join(", ")));
+        }
+        format!("ASSERT ?x{tag} {tuple} {{ {} }}", m.join(", "))
+    } else {
+        let mut f = vec![format!("proposition: {prop}")];
+        if let Some(act) = a.actor {
+            f.push(format!("asserted_by: :a{act}"));
+        }
+        f.push(format!("stance: \"{}\"", a.stance.s()));
+        f.push(format!("mode: \"{}\"", MODES[a.mode]));
+        if let Some(c) = conf {
+            f.push(format!("confidence: {c}"));
+        }
+        if !window.is_empty() {
+            f.push(format!("valid_time: {{{}}}", window.join(", ")));
+        }
+        let st = if ev_terms.is_empty() {
+            String::new()
+        } else {
+            let l: Vec<String> = ev_terms
+                .iter()
+                .map(|(t, ch)| format!("(\"evidence\", {t}) {{role: \"{}\"}}", if *ch { "challenge" } else { "support" }))
+                .collect();
+            format!(" SET STRUCTURAL {{ {} }}", l.join(" "))
+        };
+        format!("CREATE ASSERTION ?x{tag} {{ SET FIELDS {{ {} }}{st} }}", f.join(", "))
+    }
+}
+
+/// Records the multiset `asrs` in the order `order` under a fresh subject. `batched`: all
+/// creations in one MUTATE (ids still ascend in statement order), else one statement each.
+async fn record(
+    fx: &mut Fixture,
+    asrs: &[Asr],
+    functional: bool,
+    order: &[usize],
+    batched: bool,
+    rng: &mut Rng,
+    st: &mut Stats,
+) -> Result<Recorded, String> {
+    fx.used += 1;
+    let n = fx.used;
+    let mut targets: BTreeSet<u8> = asrs.iter().map(|a| a.tgt).collect();
+    targets.insert(0);
+    let mut cmd = format!("MUTATE {{\nCREATE CONCEPT ?s {{ TYPE \"Service\" NAME \"subject {}-{n}\" }}\n", fx.serial);
+    let mut p = Map::new();
+    for t in &targets {
+        p.insert(format!("v{t}"), idref(&fx.values[*t as usize]));
+        cmd.push_str(&format!("ENSURE PROPOSITION ?p{t} (?s, \"{}\", :v{t})\n", pred(functional)));
+    }
+    let mut ids: Vec<String> = vec![String::new(); asrs.len()];
+    let mut props: Vec<Option<String>> = vec![None; N_VAL];
+    let subject;
+    if batched {
+        for (pos, &i) in order.iter().enumerate() {
+            let a = &asrs[i];
+            let tuple = format!("(?s, \"{}\", :v{})", pred(functional), a.tgt);
+            cmd.push_str(&create_stmt(fx, a, &format!("{pos}"), &format!("?p{}", a.tgt), &tuple, &mut p, rng));
+            cmd.push('\n');
+        }
+        cmd.push('}');
+        let r = exec_ok(&fx.nx, &cmd, &Value::Object(p)).await?;
+        st.count("kml_mutate_batches");
+        subject = r["handles"]["s"].as_str().ok_or("no subject handle")?.to_string();
+        for t in &targets {
+            props[*t as usize] = r["handles"][format!("p{t}")].as_str().map(str::to_string);
+        }
+        for (pos, &i) in order.iter().enumerate() {
+            ids[i] = r["handles"][format!("x{pos}")].as_str().ok_or("no assertion handle")?.to_string();
+        }
+    } else {
+        cmd.push('}');
+        let r = exec_ok(&fx.nx, &cmd, &Value::Object(p)).await?;
+        subject = r["handles"]["s"].as_str().ok_or("no subject handle")?.to_string();
+        for t in &targets {
+            props[*t as usize] = r["handles"][format!("p{t}")].as_str().map(str::to_string);
+        }
+        for (pos, &i) in order.iter().enumerate() {
+            let a = &asrs[i];
+            let mut p = Map::new();
+            p.insert("s".into(), idref(&subject));
+            p.insert(format!("v{}", a.tgt), idref(&fx.values[a.tgt as usize]));
+            p.insert("p".into(), idref(props[a.tgt as usize].as_ref().unwrap()));
+            let tuple = format!("(:s, \"{}\", :v{})", pred(functional), a.tgt);
+            let mut stmt = create_stmt(fx, a, &format!("{pos}"), ":p", &tuple, &mut p, rng);
+            if !(a.sugar && a.actor.is_some()) && rng.bool() {
+                stmt = format!("MUTATE {{ {stmt} }}");
+            }
+            st.count(if a.sugar && a.actor.is_some() { "kml_assert_sugar" } else { "kml_create_assertion" });
+            let r = exec_ok(&fx.nx, &stmt, &Value::Object(p)).await?;
+            ids[i] = r["handles"][format!("x{pos}")].as_str().ok_or("no assertion handle")?.to_string();
+        }
+    }
+    // lifecycle operations, in a random order after the creations
+    let mut ops: Vec<usize> = (0..asrs.len()).filter(|i| asrs[*i].life != Life::Active).collect();
+    rng.shuffle(&mut ops);
+    for i in ops {
+        match asrs[i].life {
+            Life::Active => {}
+            Life::Retracted => {
+                let c = if rng.bool() { "RETRACT ASSERTION :a EXPECT STATE \"active\"" } else { "RETRACT ASSERTION :a" };
+                exec_ok(&fx.nx, c, &json!({"a": ids[i]})).await?;
+                st.count("kml_retract");
+            }
+            Life::Superseded(j) => {
+                exec_ok(&fx.nx, "SUPERSEDE ASSERTION :old BY :new", &json!({"old": ids[i], "new": ids[j]})).await?;
+                st.count("kml_supersede");
+            }
+            Life::Archived => {
+                exec_ok(&fx.nx, "ARCHIVE :a", &json!({"a": ids[i]})).await?;
+                st.count("kml_archive");
+            }
+        }
+    }
+    Ok(Recorded { subject, props, ids })
+}
+
+// ---------------------------------------------------------------------------------------------
+// asking and judging
+
+/// The policy parameters a query should be answered under, from the published descriptions.
+fn expected_policy(fx: &Fixture, q: &PolicyReq) -> PolicyDesc {
+    let base = match q.name {
+        Some("forecast") | Some("kip:policy:forecast") => &fx.policies["forecast"],
+        _ => &fx.policies["baseline"],
+    };
+    let mut p = base.clone();
+    if let Some(a) = q.accept {
+        p.accept = a;
+    }
+    if let Some(m) = q.material {
+        p.material = m;
+    }
+    if let Some(m) = &q.modes {
+        p.modes = m.clone();
+    }
+    p
+}
+
+/// Runs one belief query; returns the answers as (target value index, belief JSON).
+async fn ask(fx: &Fixture, rec: &Recorded, functional: bool, q: &Query) -> Result<Vec<(u8, Value)>, String> {
+    let mut p = Map::new();
+    let p0 = rec.props[0].as_ref().ok_or("no target proposition")?;
+    let body = match q.form {
+        0 => {
+            p.insert("p".into(), json!(p0));
+            "FIND(?b) WHERE { ?b BELIEF (id: :p) }".to_string()
+        }
+        1 => {
+            p.insert("s".into(), idref(&rec.subject));
+            p.insert("v".into(), idref(&fx.values[0]));
+            format!("FIND(?b) WHERE {{ ?p PROPOSITION (:s, \"{}\", :v) ?b BELIEF (?p) }}", pred(functional))
+        }
+        2 => {
+            p.insert("s".into(), idref(&rec.subject));
+            p.insert("v".into(), idref(&fx.values[0]));
+            format!("FIND(?b) WHERE {{ ?b BELIEF (:s, \"{}\", :v) }}", pred(functional))
+        }
+        _ => {
+            p.insert("s".into(), idref(&rec.subject));
+            format!("FIND(?slot) WHERE {{ ?slot BELIEF SLOT (:s, \"{}\") }}", pred(functional))
+        }
+    };
+    let mut cmd = body;
+    if let Some(step) = q.at {
+        p.insert("t".into(), json!(grid_time(step, q.spelling)));
+        cmd.push_str(" FOR TIME :t");
+    }
+    cmd.push_str(&q.policy.clause());
+    let out = exec_ok(&fx.nx, &cmd, &Value::Object(p)).await?;
+    let rows = out.as_array().ok_or("belief result is not an array")?;
+    if rows.len() != 1 {
+        return Err(format!("belief query returned {} rows: {cmd}", rows.len()));
+    }
+    if q.form == 3 {
+        let cands = rows[0]["candidate_projections"].as_array().ok_or("slot without candidate_projections")?;
+        let mut v = vec![];
+        for c in cands {
+            let pid = c["proposition_id"].as_str().unwrap_or("");
+            let t = rec.props.iter().position(|x| x.as_deref() == Some(pid)).ok_or("slot candidate is not a proposition of this subject")?;
+            v.push((t as u8, c.clone()));
+        }
+        Ok(v)
+    } else {
+        Ok(vec![(0, rows[0].clone())])
+    }
+}
+
+struct Parsed {
+    status: String,
+    sup: BTreeSet<usize>,
+    opp: BTreeSet<usize>,
+    unc: BTreeSet<usize>,
+    excl: BTreeMap<usize, String>,
+    sup_groups: u64,
+    opp_groups: u64,
+    sup_score: f64,
+    opp_score: f64,
+    policy_id: String,
+    policy_version: Value,
+    valid_at: String,
+}
+
+fn parse_answer(b: &Value, rec: &Recorded) -> Result<Parsed, String> {
+    let idx = |v: &Value| -> Result<usize, String> {
+        let s = v.as_str().ok_or("assertion id is not a string")?;
+        rec.ids.iter().position(|x| x == s).ok_or(format!("answer names assertion {s} which is not part of this case"))
+    };
+    let set = |v: &Value| -> Result<BTreeSet<usize>, String> {
+        let arr = v.as_array().ok_or("id list missing")?;
+        let s: BTreeSet<usize> = arr.iter().map(idx).collect::<Result<_, _>>()?;
+        if s.len() != arr.len() {
+            return Err("an assertion is listed twice in one ledger".into());
+        }
+        Ok(s)
+    };
+    let mut excl = BTreeMap::new();
+    for e in b["explanation"]["excluded"].as_array().ok_or("no excluded list")? {
+        if excl.insert(idx(&e["assertion_id"])?, e["reason"].as_str().unwrap_or("").to_string()).is_some() {
+            return Err("an assertion is listed twice as excluded".into());
+        }
+    }
+    Ok(Parsed {
+        status: b["status"].as_str().ok_or("no status")?.to_string(),
+        sup: set(&b["support"]["assertion_ids"])?,
+        opp: set(&b["opposition"]["assertion_ids"])?,
+        unc: set(&b["explanation"]["uncertain_assertions"])?,
+        excl,
+        sup_groups: b["support"]["independent_groups"].as_u64().ok_or("no support groups")?,
+        opp_groups: b["opposition"]["independent_groups"].as_u64().ok_or("no opposition groups")?,
+        sup_score: b["support"]["score"].as_f64().ok_or("no support score")?,
+        opp_score: b["opposition"]["score"].as_f64().ok_or("no opposition score")?,
+        policy_id: b["policy"]["id"].as_str().ok_or("answer carries no policy id")?.to_string(),
+        policy_version: b["policy"]["version"].clone(),
+        valid_at: b["temporal"]["valid_at"].as_str().unwrap_or("").to_string(),
+    })
+}
+
+/// Laws that need no reference, on one answer.
+fn laws(a: &Parsed, ctx: &dyn Fn() -> Value, st: &mut Stats) {
+    st.count("law_checks");
+    if a.sup.is_empty() && a.opp.is_empty() && a.unc.is_empty() && a.status != "insufficient" {
+        st.violation("C20/law/no_eligible_assertion_not_insufficient", json!({"status": a.status, "context": ctx()}));
+    }
+    if a.status == "rejected" && (a.opp_groups == 0 || a.opp.is_empty()) {
+        st.violation("C20/law/rejected_without_opposition", ctx());
+    }
+    if a.status == "accepted" && (a.sup_groups == 0 || a.sup.is_empty()) {
+        st.violation("C20/law/accepted_without_support", ctx());
+    }
+    for s in [a.sup_score, a.opp_score] {
+        if !(0.0..=1.0).contains(&s) || s.is_nan() {
+            st.violation("C20/law/score_out_of_range", json!({"score": s, "context": ctx()}));
+        }
+    }
+    if a.sup_groups as usize > a.sup.len() || a.opp_groups as usize > a.opp.len() {
+        st.violation("C20/law/more_groups_than_assertions", ctx());
+    }
+    if (a.sup.is_empty()) != (a.sup_groups == 0) || (a.opp.is_empty()) != (a.opp_groups == 0) {
+        st.violation("C20/law/groups_vs_ledger", ctx());
+    }
+    if a.policy_id.is_empty() || a.policy_version.is_null() {
+        st.violation("C20/law/answer_without_policy_identity", ctx());
+    }
+}
+
+/// Reference comparison of one answer.
+#[allow(clippy::too_many_arguments)]
+fn judge(
+    a: &Parsed,
+    r: &RefAns,
+    q: &Query,
+    base_id: &str,
+    base_version: &Value,
+    ctx: &dyn Fn() -> Value,
+    st: &mut Stats,
+) {
+    st.eval();
+    st.count("ref_comparisons");
+    let fail = |st: &mut Stats, what: &str, d: Value| {
+        st.violation(format!("C20/ref/{what}"), json!({"what": d, "context": ctx()}));
+    };
+    // policy identity
+    if q.policy.overridden() {
+        st.count("threshold_override_queries");
+        if a.policy_id == base_id {
+            fail(st, "policy_id_unchanged_by_override", json!({"answer_policy": a.policy_id}));
+        }
+    } else if a.policy_id != base_id || &a.policy_version != base_version {
+        fail(st, "policy_identity", json!({"answer_policy": a.policy_id, "described": base_id}));
+    }
+    if let Some(step) = q.at {
+        if a.valid_at != grid_canonical(step) {
+            fail(st, "valid_at", json!({"got": a.valid_at, "expected": grid_canonical(step)}));
+        }
+    }
+    if r.boundary {
+        st.count("ref_skipped_window_boundary");
+        return;
+    }
+    if a.sup != r.sup || a.opp != r.opp || a.unc != r.unc {
+        fail(st, "ledger", json!({"support": [format!("{:?}", a.sup), format!("{:?}", r.sup)],
+            "opposition": [format!("{:?}", a.opp), format!("{:?}", r.opp)],
+            "uncertain": [format!("{:?}", a.unc), format!("{:?}", r.unc)]}));
+        return;
+    }
+    // excluded: every ineligible assertion about the target is listed, nothing eligible is, and
+    // each reason is one that applies
+    for (i, why) in &r.excl_must {
+        match a.excl.get(i) {
+            None => fail(st, "excluded_missing", json!({"assertion": i, "applicable": format!("{why:?}")})),
+            Some(reason) => match reason_class(reason) {
+                None => st.inconclusive(format!("C20: exclusion reason {reason:?} is not in the monitor's vocabulary")),
+                Some(c) if !why.contains(c) => fail(st, "excluded_reason", json!({"assertion": i, "reason": reason, "applicable": format!("{why:?}")})),
+                Some(c) => st.count(&format!("excluded_{c}")),
+            },
+        }
+    }
+    for (i, reason) in &a.excl {
+        if !r.excl_must.contains_key(i) {
+            match r.excl_may.get(i) {
+                Some(why) if reason_class(reason).map(|c| why.contains(c)).unwrap_or(true) => {}
+                _ => fail(st, "excluded_but_eligible", json!({"assertion": i, "reason": reason})),
+            }
+        }
+    }
+    if r.nameless_ambiguous {
+        st.count("ref_grouping_skipped_unattributed_assertions");
+        return;
+    }
+    if a.sup_groups as usize != r.sup_groups || a.opp_groups as usize != r.opp_groups {
+        fail(st, "independent_groups", json!({"got": [a.sup_groups, a.opp_groups], "expected": [r.sup_groups, r.opp_groups]}));
+    }
+    if (a.sup_score - r.sup_score).abs() > 1e-9 || (a.opp_score - r.opp_score).abs() > 1e-9 {
+        fail(st, "score", json!({"got": [a.sup_score, a.opp_score], "expected": [r.sup_score, r.opp_score]}));
+    }
+    if r.near_tie {
+        st.count("ref_status_skipped_threshold_tie");
+    } else if !r.statuses.contains(&a.status.as_str()) {
+        fail(st, "status", json!({"got": a.status, "expected": r.statuses,
+            "scores": [r.sup_score, r.opp_score]}));
+    }
+    st.count(&format!("status_{}", a.status));
+    if r.bridge {
+        st.count("bridge_merging_cases");
+    }
+    if r.rival_opposition {
+        st.count("functional_rival_cases");
+    }
+    if r.sup.is_empty() && r.opp.is_empty() && r.unc.is_empty() && !r.excl_must.is_empty() {
+        st.count("only_excluded_cases");
+    }
+}
+
+/// Canonical, id-free projection of an answer for the permutation oracle.
+fn canonical(a: &Parsed, asrs: &[Asr], timed: bool) -> Value {
+    let d = |s: &BTreeSet<usize>| {
+        let mut v: Vec<String> = s.iter().map(|i| asrs[*i].desc()).collect();
+        v.sort();
+        v
+    };
+    let mut ex: Vec<String> = a.excl.iter().map(|(i, r)| format!("{} <- {r}", asrs[*i].desc())).collect();
+    ex.sort();
+    json!({"support": d(&a.sup), "opposition": d(&a.opp), "uncertain": d(&a.unc), "excluded": ex,
+        "groups": [a.sup_groups, a.opp_groups], "policy": [a.policy_id, a.policy_version],
+        // without FOR TIME the answer is evaluated at the wall clock of the request
+        "valid_at": if timed { a.valid_at.clone() } else { String::new() }})
+}
+
+// ---------------------------------------------------------------------------------------------
+// randomized tier: generated multisets, several recording orders, addition laws
+
+fn gen_conf(rng: &mut Rng) -> Option<f64> {
+    match rng.weighted(&[15, 65, 20]) {
+        0 => None,
+        1 => Some(*rng.pick(&[0.0, 0.2, 0.3, 0.45, 0.6, 0.7, 0.9, 1.0])),
+        _ => Some((rng.f64() * 1000.0).round() / 1000.0),
+    }
+}
+
+fn gen_case(rng: &mut Rng) -> (Vec<Asr>, bool) {
+    let functional = rng.bool();
+    let n = rng.weighted(&[3, 8, 14, 22, 20, 14, 10, 9]);
+    let mut v: Vec<Asr> = vec![];
+    for _ in 0..n {
+        let actor = if rng.chance(1, 10) { None } else { Some(rng.below(3) as u8) };
+        let mut ev = 0u8;
+        for e in 0..3 {
+            if rng.chance(1, 3) {
+                ev |= 1 << e;
+            }
+        }
+        let tgt = if rng.chance(if functional { 65 } else { 80 }, 100) { 0 } else { 1 + rng.below(2) as u8 };
+        let stance = [Stance::Support, Stance::Reject, Stance::Uncertain][rng.weighted(&[60, 30, 10])];
+        let (mut from, mut until) = (None, None);
+        if rng.chance(2, 5) {
+            if rng.chance(2, 3) {
+                from = Some(2 * rng.below(6) as u8);
+            }
+            if rng.chance(2, 3) {
+                let lo = from.map(|f| f / 2 + 1).unwrap_or(1) as u64;
+                until = Some(2 * rng.range(lo, 8) as u8);
+            }
+        }
+        let sugar = actor.is_some() && rng.bool();
+        v.push(Asr {
+            actor,
+            ev,
+            tgt,
+            stance,
+            conf: gen_conf(rng),
+            mode: rng.weighted(&[30, 30, 10, 10, 10, 10]),
+            from,
+            until,
+            life: Life::Active,
+            sugar,
+            challenge: if sugar { 0 } else { ev & rng.below(8) as u8 },
+        });
+    }
+    for i in 0..v.len() {
+        v[i].life = match rng.weighted(&[70, 12, 10, 8]) {
+            0 => Life::Active,
+            1 => Life::Retracted,
+            2 => {
+                let partners: Vec<usize> = (0..v.len()).filter(|j| *j != i && v[*j].tgt == v[i].tgt).collect();
+                if partners.is_empty() { Life::Retracted } else { Life::Superseded(*rng.pick(&partners)) }
+            }
+            _ => Life::Archived,
+        };
+    }
+    (v, functional)
+}
+
+fn gen_query(rng: &mut Rng) -> Query {
+    let at = match rng.weighted(&[30, 60, 10]) {
+        0 => None,
+        1 => Some(1 + 2 * rng.below(8) as u8),
+        _ => Some(2 * rng.below(9) as u8),
+    };
+    let mut policy = PolicyReq::default();
+    match rng.weighted(&[40, 20, 40]) {
+        0 => {}
+        1 => policy.name = Some(*rng.pick(&["baseline", "kip:policy:baseline", "forecast", "kip:policy:forecast"])),
+        _ => {
+            if rng.chance(1, 4) {
+                policy.name = Some(*rng.pick(&["baseline", "forecast"]));
+            }
+            let accept = *rng.pick(&[0.5, 0.6, 0.7, 0.8, 0.95, 1.0]);
+            let material: f64 = *rng.pick(&[0.0, 0.1, 0.3, 0.5]);
+            match rng.below(4) {
+                0 => policy.accept = Some(accept),
+                1 => policy.material = Some(material.min(0.7)),
+                2 => {
+                    policy.accept = Some(accept);
+                    policy.material = Some(material.min(accept));
+                }
+                _ => {
+                    let mut ms: Vec<usize> = (0..6).filter(|_| rng.bool()).collect();
+                    if ms.is_empty() && rng.chance(3, 4) {
+                        ms.push(rng.usize(6));
+                    }
+                    policy.modes = Some(ms);
+                }
+            }
+        }
+    }
+    Query { at, spelling: rng.below(8) as u8, policy, form: rng.weighted(&[40, 20, 20, 20]) as u8 }
+}
+
+fn all_orders(n: usize) -> Vec<Vec<usize>> {
+    fn rec(cur: &mut Vec<usize>, used: &mut Vec<bool>, out: &mut Vec<Vec<usize>>) {
+        if cur.len() == used.len() {
+            out.push(cur.clone());
+            return;
+        }
+        for i in 0..used.len() {
+            if !used[i] {
+                used[i] = true;
+                cur.push(i);
+                rec(cur, used, out);
+                cur.pop();
+                used[i] = false;
+            }
+        }
+    }
+    let mut out = vec![];
+    rec(&mut vec![], &mut vec![false; n], &mut out);
+    out
+}
+
+fn case_json(asrs: &[Asr], functional: bool) -> Value {
+    json!({"functional": functional, "assertions": asrs.iter().enumerate().map(|(i, a)| format!("#{i} {} life={:?} sugar={} challenge={:03b}", a.desc(), a.life, a.sugar, a.challenge)).collect::<Vec<_>>()})
+}
+
+fn random_case(case: u64, rng: &mut Rng, st: &mut Stats, thorough: bool) {
+    let (asrs, functional) = gen_case(rng);
+    let n = asrs.len();
+    let mut queries: Vec<Query> = (0..if thorough { 10 } else { 7 }).map(|_| gen_query(rng)).collect();
+    queries[0] = Query { at: None, spelling: 0, policy: PolicyReq::default(), form: 0 };
+    let mut orders = if n <= 3 || (n == 4 && thorough) {
+        all_orders(n)
+    } else {
+        let mut o: Vec<Vec<usize>> = vec![(0..n).collect(), (0..n).rev().collect()];
+        for _ in 0..if thorough { 4 } else { 2 } {
+            let mut x: Vec<usize> = (0..n).collect();
+            rng.shuffle(&mut x);
+            if !o.contains(&x) {
+                o.push(x);
+            }
+        }
+        o
+    };
+    if n == 0 {
+        orders = vec![vec![]];
+    }
+    st.count(&format!("random_cases_size_{}", n.min(7)));
+    let res = with_fixture(async |fx: &mut Fixture| {
+        // per query, per target: (order index, parsed answer)
+        let mut seen: Vec<BTreeMap<u8, Vec<(usize, Parsed)>>> = (0..queries.len()).map(|_| BTreeMap::new()).collect();
+        let mut first: Option<Recorded> = None;
+        for (oi, order) in orders.iter().enumerate() {
+            let batched = rng.chance(1, 3);
+            let rec = record(fx, &asrs, functional, order, batched, rng, st).await?;
+            st.count("orders_recorded");
+            for (qi, q) in queries.iter().enumerate() {
+                let pol = expected_policy(fx, &q.policy);
+                let base = match q.policy.name {
+                    Some("forecast") | Some("kip:policy:forecast") => &fx.policies["forecast"],
+                    _ => &fx.policies["baseline"],
+                };
+                st.count(&format!("query_form_{}", q.form));
+                for (tgt, b) in ask(fx, &rec, functional, q).await? {
+                    let ctx = || json!({"case": case, "multiset": case_json(&asrs, functional), "order": order, "query": format!("{q:?}"), "target": tgt, "answer": b});
+                    let a = match parse_answer(&b, &rec) {
+                        Ok(a) => a,
+                        Err(e) => {
+                            st.violation("C20/answer_malformed", json!({"error": e, "context": ctx()}));
+                            continue;
+                        }
+                    };
+                    laws(&a, &ctx, st);
+                    let r = reference(&asrs, functional, tgt, q.at, &pol);
+                    judge(&a, &r, q, &base.id, &base.version, &ctx, st);
+                    seen[qi].entry(tgt).or_default().push((oi, a));
+                }
+            }
+            if oi == 0 {
+                first = Some(rec);
+            }
+        }
+        // permutation invariance
+        for (qi, per_t) in seen.iter().enumerate() {
+            let pol = expected_policy(fx, &queries[qi].policy);
+            for (tgt, answers) in per_t {
+                let (o0, a0) = &answers[0];
+                let timed = queries[qi].at.is_some();
+                let c0 = canonical(a0, &asrs, timed);
+                for (oi, a) in &answers[1..] {
+                    st.count("permutations_compared");
+                    let near = [a0.sup_score, a0.opp_score, a.sup_score, a.opp_score]
+                        .iter()
+                        .any(|s| (s - pol.accept).abs() < 1e-9 || (s - pol.material).abs() < 1e-9);
+                    let same = canonical(a, &asrs, timed) == c0
+                        && (a.sup_score - a0.sup_score).abs() <= 1e-9
+                        && (a.opp_score - a0.opp_score).abs() <= 1e-9
+                        && (near || a.status == a0.status);
+                    if near {
+                        st.count("permutation_status_skipped_threshold_tie");
+                    }
+                    if !same {
+                        st.violation(
+                            "C20/permutation/answer_depends_on_recording_order",
+                            json!({"case": case, "multiset": case_json(&asrs, functional), "query": format!("{:?}", queries[qi]), "target": tgt,
+                                "order_a": orders[*o0], "order_b": orders[*oi],
+                                "answer_a": {"canonical": c0, "status": a0.status, "scores": [a0.sup_score, a0.opp_score]},
+                                "answer_b": {"canonical": canonical(a, &asrs, timed), "status": a.status, "scores": [a.sup_score, a.opp_score]}}),
+                        );
+                    }
+                }
+            }
+        }
+        // addition laws on the first recorded instance
+        if let Some(rec) = first {
+            addition_laws(fx, case, asrs.clone(), functional, rec, rng, st).await?;
+        }
+        Ok(())
+    });
+    if let Err(e) = res {
+        st.inconclusive(format!("C20 random case {case}: {e}"));
+    }
+    let eligible_now = asrs.iter().filter(|a| a.life == Life::Active && a.tgt == 0 && a.stance != Stance::Uncertain).count();
+    if eligible_now >= 2 {
+        let mut d: Vec<String> = asrs.iter().map(|a| a.desc()).collect();
+        d.sort();
+        st.distinct(vcore::hash_debug(&(d, functional)));
+    }
+    st.sample(|| json!({"monitor": "random", "case": case, "multiset": case_json(&asrs, functional), "orders": orders.len(), "queries": queries.len()}));
+}
+
+/// "Repetition is not support": adds assertions to an already recorded multiset and compares
+/// the answer before / after.
+async fn addition_laws(
+    fx: &mut Fixture,
+    case: u64,
+    mut asrs: Vec<Asr>,
+    functional: bool,
+    mut rec: Recorded,
+    rng: &mut Rng,
+    st: &mut Stats,
+) -> Result<(), String> {
+    let q = Query {
+        at: if rng.bool() { None } else { Some(1 + 2 * rng.below(8) as u8) },
+        spelling: rng.below(8) as u8,
+        policy: if rng.chance(1, 4) { PolicyReq { name: Some("forecast"), ..Default::default() } } else { PolicyReq::default() },
+        form: 0,
+    };
+    let pol = expected_policy(fx, &q.policy);
+    for step in 0..3 {
+        let before_json = ask(fx, &rec, functional, &q).await?.remove(0).1;
+        let Ok(before) = parse_answer(&before_json, &rec) else { return Ok(()) };
+        // a contributing assertion y and its side
+        let mut ys: Vec<(usize, bool)> = before.sup.iter().map(|i| (*i, false)).collect();
+        ys.extend(before.opp.iter().map(|i| (*i, true)));
+        if ys.is_empty() {
+            return Ok(());
+        }
+        let (yi, opposing) = *rng.pick(&ys);
+        let y = asrs[yi].clone();
+        let mut x = Asr { life: Life::Active, sugar: false, challenge: 0, ..y.clone() };
+        let same_side: Vec<usize> = ys.iter().filter(|(i, o)| *o == opposing && *i != yi && asrs[*i].ev != 0).map(|(i, _)| *i).collect();
+        // actor 3 is never generated: a voice nobody has heard from yet (until this law used it)
+        let fresh_voice = !asrs.iter().any(|a| a.actor == Some(3));
+        let kind = match rng.weighted(&[30, 25, 25, 20]) {
+            1 if y.ev != 0 && fresh_voice => "shared_evidence_new_voice",
+            2 if y.actor.is_some() => "louder_repeat",
+            3 if y.ev != 0 && !same_side.is_empty() => "bridge",
+            _ if y.actor.is_some() => "repeat_same_actor",
+            _ if y.ev != 0 && fresh_voice => "shared_evidence_new_voice",
+            _ => return Ok(()),
+        };
+        let sub = |rng: &mut Rng, m: u8, nonempty: bool| -> u8 {
+            let mut s = m & rng.below(16) as u8;
+            if nonempty && s == 0 {
+                s = 1 << m.trailing_zeros();
+            }
+            s
+        };
+        let softer = |rng: &mut Rng, c: Option<f64>| c.map(|c| if rng.bool() { c } else { (c * rng.f64() * 1000.0).floor() / 1000.0 });
+        match kind {
+            "repeat_same_actor" => {
+                x.ev = sub(rng, y.ev, false);
+                x.conf = softer(rng, y.conf);
+                x.sugar = rng.bool();
+            }
+            "shared_evidence_new_voice" => {
+                x.actor = Some(3);
+                x.ev = sub(rng, y.ev, true);
+                x.conf = softer(rng, y.conf);
+            }
+            "louder_repeat" => {
+                x.ev = sub(rng, y.ev, false);
+                x.conf = Some(match y.conf {
+                    Some(c) => (c + (1.0 - c) * rng.f64()).min(1.0),
+                    None => 1.0,
+                });
+            }
+            _ => {
+                let z = &asrs[*rng.pick(&same_side)];
+                x.actor = if fresh_voice { Some(3) } else { None };
+                x.ev = (1 << y.ev.trailing_zeros()) | (1 << z.ev.trailing_zeros());
+                x.mode = y.mode;
+                x.conf = gen_conf(rng);
+            }
+        }
+        // record x about the same proposition as y
+        let mut p = Map::new();
+        p.insert("s".into(), idref(&rec.subject));
+        p.insert(format!("v{}", x.tgt), idref(&fx.values[x.tgt as usize]));
+        p.insert("p".into(), idref(rec.props[x.tgt as usize].as_ref().ok_or("no proposition for addition")?));
+        let tuple = format!("(:s, \"{}\", :v{})", pred(functional), x.tgt);
+        let stmt = create_stmt(fx, &x, "add", ":p", &tuple, &mut p, rng);
+        let r = exec_ok(&fx.nx, &stmt, &Value::Object(p)).await?;
+        rec.ids.push(r["handles"]["xadd"].as_str().ok_or("no handle for the added assertion")?.to_string());
+        asrs.push(x.clone());
+        let after_json = ask(fx, &rec, functional, &q).await?.remove(0).1;
+        let ctx = || json!({"case": case, "step": step, "law": kind, "multiset_before_addition": case_json(&asrs[..asrs.len() - 1], functional),
+            "added": x.desc(), "contributing_assertion": yi, "query": format!("{q:?}"), "before": before_json, "after": after_json});
+        let after = match parse_answer(&after_json, &rec) {
+            Ok(a) => a,
+            Err(e) => {
+                st.violation("C20/answer_malformed", json!({"error": e, "context": ctx()}));
+                return Ok(());
+            }
+        };
+        st.eval();
+        st.count(&format!("add_law_{kind}"));
+        laws(&after, &ctx, st);
+        let base = if q.policy.name.is_some() { &fx.policies["forecast"] } else { &fx.policies["baseline"] };
+        judge(&after, &reference(&asrs, functional, 0, q.at, &pol), &q, &base.id, &base.version, &ctx, st);
+        let (g0, g1, s0, s1, og0, og1, os0, os1) = if opposing {
+            (before.opp_groups, after.opp_groups, before.opp_score, after.opp_score, before.sup_groups, after.sup_groups, before.sup_score, after.sup_score)
+        } else {
+            (before.sup_groups, after.sup_groups, before.sup_score, after.sup_score, before.opp_groups, after.opp_groups, before.opp_score, after.opp_score)
+        };
+        let new_id = rec.ids.len() - 1;
+        let joined = if opposing { after.opp.contains(&new_id) } else { after.sup.contains(&new_id) };
+        if !joined {
+            st.violation("C20/add/eligible_addition_not_in_ledger", ctx());
+            continue;
+        }
+        if og0 != og1 || (os0 - os1).abs() > 1e-12 {
+            st.violation("C20/add/other_side_changed", ctx());
+        }
+        if g1 > g0 {
+            st.violation("C20/add/repeat_or_shared_evidence_added_a_group", ctx());
+        }
+        match kind {
+            "repeat_same_actor" | "shared_evidence_new_voice" => {
+                if g1 != g0 || (s1 - s0).abs() > 1e-12 {
+                    st.violation("C20/add/not_louder_addition_changed_score_or_groups", ctx());
+                }
+            }
+            "louder_repeat" => {
+                if g1 != g0 || s1 < s0 - 1e-12 {
+                    st.violation("C20/add/raising_a_group_maximum_lowered_the_score", ctx());
+                }
+                if s1 > s0 + 1e-12 {
+                    st.count("add_law_score_rose_with_louder_voice");
+                }
+            }
+            _ => {
+                if g1 < g0 {
+                    st.count("add_law_bridge_merged_groups");
+                }
+            }
+        }
+    }
+    Ok(())
+}
+
+// ---------------------------------------------------------------------------------------------
+// bounded-exhaustive tier
+
+#[derive(Clone)]
+struct Alphabet {
+    name: &'static str,
+    stances: Vec<Stance>,
+    confs: Vec<f64>,
+    lives: Vec<Life>,
+}
+
+impl Alphabet {
+    fn size(&self) -> usize {
+        3 * 8 * self.stances.len() * self.confs.len() * self.lives.len()
+    }
+    fn decode(&self, t: usize) -> Asr {
+        let (l, c, s) = (self.lives.len(), self.confs.len(), self.stances.len());
+        let life = self.lives[t % l];
+        let conf = self.confs[(t / l) % c];
+        let stance = self.stances[(t / l / c) % s];
+        let ev = ((t / l / c / s) % 8) as u8;
+        let actor = (t / l / c / s / 8) as u8;
+        Asr::simple(actor, ev, stance, conf, life)
+    }
+    fn encode(&self, a: &Asr) -> usize {
+        let (l, c, s) = (self.lives.len(), self.confs.len(), self.stances.len());
+        let li = self.lives.iter().position(|x| *x == a.life).unwrap();
+        let ci = self.confs.iter().position(|x| Some(*x) == a.conf).unwrap();
+        let si = self.stances.iter().position(|x| *x == a.stance).unwrap();
+        (((a.actor.unwrap() as usize * 8 + a.ev as usize) * s + si) * c + ci) * l + li
+    }
+    /// relabel[k][t]: type t after the k-th of the 36 (actor permutation, evidence permutation)
+    fn relabelings(&self) -> Vec<Vec<u16>> {
+        let perms = all_orders(3);
+        let mut out = vec![];
+        for pa in &perms {
+            for pe in &perms {
+                let mut m = vec![0u16; self.size()];
+                for t in 0..self.size() {
+                    let mut a = self.decode(t);
+                    a.actor = Some(pa[a.actor.unwrap() as usize] as u8);
+                    let mut ev = 0u8;
+                    for e in 0..3 {
+                        if a.ev & (1 << e) != 0 {
+                            ev |= 1 << pe[e];
+                        }
+                    }
+                    a.ev = ev;
+                    m[t] = self.encode(&a) as u16;
+                }
+                out.push(m);
+            }
+        }
+        out
+    }
+}
+
+fn is_canonical(m: &[u16], relab: &[Vec<u16>]) -> bool {
+    let mut buf = [0u16; 8];
+    for r in relab {
+        for (i, t) in m.iter().enumerate() {
+            buf[i] = r[*t as usize];
+        }
+        buf[..m.len()].sort_unstable();
+        if buf[..m.len()] < *m {
+            return false;
+        }
+    }
+    true
+}
+
+/// All distinct arrangements of a sorted multiset.
+fn arrangements(m: &[u16]) -> Vec<Vec<u16>> {
+    fn rec(rest: &mut Vec<u16>, cur: &mut Vec<u16>, out: &mut Vec<Vec<u16>>) {
+        if rest.is_empty() {
+            out.push(cur.clone());
+            return;
+        }
+        let mut last = None;
+        for i in 0..rest.len() {
+            if Some(rest[i]) == last {
+                continue;
+            }
+            last = Some(rest[i]);
+            let x = rest.remove(i);
+            cur.push(x);
+            rec(rest, cur, out);
+            cur.pop();
+            rest.insert(i, x);
+        }
+    }
+    let mut out = vec![];
+    rec(&mut m.to_vec(), &mut vec![], &mut out);
+    out
+}
+
+const BATCH: usize = 12;
+
+/// Records a batch of arrangements (each under its own subject) with one MUTATE, retracts with a
+/// second one, reads all beliefs with one FIND, judges each against the reference.
+async fn run_batch(fx: &mut Fixture, alpha: &Alphabet, jobs: &[Vec<u16>], st: &mut Stats) -> Result<(), String> {
+    let mut cmd = String::from("MUTATE {\n");
+    let mut p = Map::new();
+    p.insert("v0".into(), idref(&fx.values[0]));
+    for i in 0..3 {
+        p.insert(format!("a{i}"), idref(&fx.actors[i]));
+        p.insert(format!("e{i}"), idref(&fx.evidence[i]));
+    }
+    let decoded: Vec<Vec<Asr>> = jobs.iter().map(|j| j.iter().map(|t| alpha.decode(*t as usize)).collect()).collect();
+    for (k, asrs) in decoded.iter().enumerate() {
+        fx.used += 1;
+        cmd.push_str(&format!("CREATE CONCEPT ?s{k} {{ TYPE \"Service\" NAME \"subject {}-{}\" }}\n", fx.serial, fx.used));
+        cmd.push_str(&format!("ENSURE PROPOSITION ?p{k} (?s{k}, \"mentions\", :v0)\n"));
+        for (i, a) in asrs.iter().enumerate() {
+            let ev: Vec<String> = (0..3).filter(|e| a.ev & (1 << e) != 0).map(|e| format!("(\"evidence\", :e{e}) {{role: \"support\"}}")).collect();
+            let stx = if ev.is_empty() { String::new() } else { format!(" SET STRUCTURAL {{ {} }}", ev.join(" ")) };
+            cmd.push_str(&format!(
+                "CREATE ASSERTION ?x{k}_{i} {{ SET FIELDS {{ proposition: ?p{k}, asserted_by: :a{}, stance: \"{}\", mode: \"observed\", confidence: {} }}{stx} }}\n",
+                a.actor.unwrap(), a.stance.s(), a.conf.unwrap()
+            ));
+        }
+    }
+    cmd.push('}');
+    let r = exec_ok(&fx.nx, &cmd, &Value::Object(p)).await?;
+    let h = &r["handles"];
+    let mut recs = vec![];
+    let mut retract = String::from("MUTATE {\n");
+    let mut rp = Map::new();
+    let mut find = (vec![], String::new(), Map::new());
+    for (k, asrs) in decoded.iter().enumerate() {
+        let ids: Vec<String> = (0..asrs.len())
+            .map(|i| h[format!("x{k}_{i}")].as_str().map(str::to_string).ok_or("missing assertion handle"))
+            .collect::<Result<_, _>>()?;
+        let prop = h[format!("p{k}")].as_str().ok_or("missing proposition handle")?.to_string();
+        for (i, a) in asrs.iter().enumerate() {
+            if a.life == Life::Retracted {
+                retract.push_str(&format!("RETRACT ASSERTION :r{k}_{i}\n"));
+                rp.insert(format!("r{k}_{i}"), json!(ids[i]));
+            }
+        }
+        find.0.push(format!("?b{k}"));
+        find.1.push_str(&format!("?b{k} BELIEF (id: :p{k})\n"));
+        find.2.insert(format!("p{k}"), json!(prop));
+        recs.push(Recorded { subject: String::new(), props: vec![Some(prop), None, None], ids });
+    }
+    if !rp.is_empty() {
+        retract.push('}');
+        exec_ok(&fx.nx, &retract, &Value::Object(rp)).await?;
+    }
+    let out = exec_ok(&fx.nx, &format!("FIND({}) WHERE {{ {} }}", find.0.join(", "), find.1), &Value::Object(find.2)).await?;
+    let row = match out.as_array() {
+        Some(rows) if rows.len() == 1 => {
+            if jobs.len() == 1 { vec![rows[0].clone()] } else { rows[0].as_array().cloned().ok_or("row is not an array")? }
+        }
+        _ => return Err(format!("batched belief query returned {out}")),
+    };
+    if row.len() != jobs.len() {
+        return Err("batched belief query: wrong number of columns".into());
+    }
+    let pol = fx.policies["baseline"].clone();
+    let q = Query { at: None, spelling: 0, policy: PolicyReq::default(), form: 0 };
+    for (k, asrs) in decoded.iter().enumerate() {
+        let b = &row[k];
+        let ctx = || json!({"tier": "exhaustive", "alphabet": alpha.name, "recorded_in_this_order": case_json(asrs, false), "answer": b});
+        match parse_answer(b, &recs[k]) {
+            Ok(a) => {
+                laws(&a, &ctx, st);
+                judge(&a, &reference(asrs, false, 0, None, &pol), &q, &pol.id, &pol.version, &ctx, st);
+            }
+            Err(e) => st.violation("C20/answer_malformed", json!({"error": e, "context": ctx()})),
+        }
+        st.count("exhaustive_arrangements");
+    }
+    Ok(())
+}
+
+/// All canonical multisets of exactly `n` types whose smallest type is `t0`.
+fn canonical_multisets(alpha: &Alphabet, relab: &[Vec<u16>], n: usize, t0: u16) -> Vec<Vec<u16>> {
+    let size = alpha.size() as u16;
+    let mut out = vec![];
+    if n == 0 {
+        return out;
+    }
+    let mut m = vec![t0; n];
+    'outer: loop {
+        if is_canonical(&m, relab) {
+            out.push(m.clone());
+        }
+        // next non-decreasing sequence (position 0 fixed)
+        let mut i = n;
+        loop {
+            if i <= 1 {
+                break 'outer;
+            }
+            i -= 1;
+            if m[i] + 1 < size {
+                let v = m[i] + 1;
+                for x in m.iter_mut().skip(i) {
+                    *x = v;
+                }
+                break;
+            }
+        }
+    }
+    out
+}
+
+/// Enumerates (in parallel) every canonical multiset of size `n` and returns all their distinct
+/// arrangements, cut into batches.
+fn enumerate_batches(alpha: &Alphabet, n: usize, threads: usize) -> (usize, Vec<Vec<Vec<u16>>>) {
+    let relab = alpha.relabelings();
+    let size = alpha.size();
+    let next = std::sync::atomic::AtomicUsize::new(0);
+    let all: std::sync::Mutex<Vec<(u16, Vec<Vec<u16>>)>> = std::sync::Mutex::new(vec![]);
+    std::thread::scope(|sc| {
+        for _ in 0..threads.max(1) {
+            sc.spawn(|| {
+                loop {
+                    let t0 = next.fetch_add(1, std::sync::atomic::Ordering::Relaxed);
+                    if t0 >= size {
+                        break;
+                    }
+                    let ms = canonical_multisets(alpha, &relab, n, t0 as u16);
+                    all.lock().unwrap().push((t0 as u16, ms));
+                }
+            });
+        }
+    });
+    let mut all = all.into_inner().unwrap();
+    all.sort_by_key(|(t0, _)| *t0);
+    let mut multisets = 0;
+    let mut batches: Vec<Vec<Vec<u16>>> = vec![];
+    let mut cur: Vec<Vec<u16>> = vec![];
+    for (_, ms) in all {
+        for m in ms {
+            multisets += 1;
+            for arr in arrangements(&m) {
+                cur.push(arr);
+                if cur.len() >= BATCH {
+                    batches.push(std::mem::take(&mut cur));
+                }
+            }
+        }
+    }
+    if !cur.is_empty() {
+        batches.push(cur);
+    }
+    (multisets, batches)
+}
+
 fn main() {
-    println!("INCONCLUSIVE property=C20 monitor not built yet");
-    std::process::exit(2);
+    let mut run = Run::from_args(
+        "C20",
+        "exploration",
+        "a case is a multiset of assertions about one proposition (+ rival values); non-trivial when >= 2 \
+         active side-taking assertions bear on the target (so grouping matters); distinct by content \
+         (actors, evidence sets, stances, confidences, modes, windows, lifecycle), not by ids or order",
+    );
+    run.assume("policy parameters (eligible modes, accept/material thresholds, weight of an unstated confidence, conflict expansion) are taken from the engine's own published description of the policy the answer names (DESCRIBE EPISTEMIC POLICY), not from its source; the specification is silent on the weight of an unstated confidence");
+    run.assume("validity windows are treated as from <= t < until; evaluation times that coincide with a window boundary are excluded from the reference comparison (specification silent) and only take part in the permutation oracle");
+    run.assume("status is not compared when a score lies within 1e-9 of a threshold (floating-point product order)");
+    run.assume("an eligible assertion with stance 'uncertain' and no side-taking assertion: both 'uncertain' and 'insufficient' are accepted");
+    run.assume("exclusion reasons are compared by class (retracted / superseded / temporal / mode / visibility), any applicable class is accepted; ineligible assertions about RIVAL values may or may not be listed");
+    run.assume("bounded-exhaustive tier enumerates multisets up to renaming of the 3 actors and the 3 evidence ids (the projection only compares them for equality)");
+    let t = run.tier;
+    let thorough = t == vcore::Tier::Thorough;
+    let full = Alphabet { name: "full", stances: vec![Stance::Support, Stance::Reject, Stance::Uncertain], confs: vec![0.2, 0.5, 0.8], lives: vec![Life::Active, Life::Retracted] };
+    let red = Alphabet { name: "reduced", stances: vec![Stance::Support, Stance::Reject], confs: vec![0.5, 0.8], lives: vec![Life::Active] };
+    let mid = Alphabet { name: "two_sided", stances: vec![Stance::Support, Stance::Reject], confs: vec![0.5], lives: vec![Life::Active] };
+    let small = Alphabet { name: "one_sided", stances: vec![Stance::Support], confs: vec![0.5], lives: vec![Life::Active] };
+    let mut plan: Vec<(&Alphabet, usize, f64)> = vec![(&full, 1, 0.05), (&full, 2, 0.2)];
+    if thorough {
+        plan.extend([(&full, 3, 0.6), (&mid, 4, 0.5), (&small, 5, 0.5)]);
+    } else {
+        plan.extend([(&red, 3, 0.6), (&small, 4, 0.4)]);
+    }
+    let mut complete = true;
+    if run.wants("exhaustive") {
+        // the empty multiset
+        let mut st0 = Stats::default();
+        if let Err(e) = with_fixture(async |fx: &mut Fixture| run_batch(fx, &full, &[vec![]], &mut st0).await) {
+            st0.inconclusive(format!("C20 empty multiset: {e}"));
+        }
+        run.stats.merge(st0);
+        for (alpha, n, frac) in plan {
+            let label = format!("ex_{}_{n}", alpha.name);
+            let (multisets, batches) = enumerate_batches(alpha, n, run.threads);
+            run.stats.add(&format!("exhaustive_multisets_{}_{n}", alpha.name), multisets as u64);
+            let ran = run.parallel(&label, batches.len() as u64, frac, |b, _rng, st| {
+                let jobs = &batches[b as usize];
+                for j in jobs {
+                    let dec: Vec<Asr> = j.iter().map(|t| alpha.decode(*t as usize)).collect();
+                    if dec.iter().filter(|a| a.life == Life::Active && a.stance != Stance::Uncertain).count() >= 2 {
+                        let mut sorted = j.clone();
+                        sorted.sort_unstable();
+                        st.distinct(vcore::hash_debug(&(alpha.name, sorted)));
+                    }
+                }
+                if let Err(e) = with_fixture(async |fx: &mut Fixture| run_batch(fx, alpha, jobs, st).await) {
+                    st.inconclusive(format!("C20 exhaustive batch {b} of {label}: {e}"));
+                }
+            });
+            if ran < batches.len() as u64 {
+                complete = false;
+            }
+        }
+        run.exhaustive = Some(complete && run.replay.is_none());
+        run.set_extra("exhaustive_scope", json!(if thorough {
+            "all multisets (up to actor/evidence renaming) of size <= 3 over 3 actors x 8 evidence subsets x 3 stances x {0.2,0.5,0.8} x {active,retracted}; size 4 over 2 stances x {0.5} x active; size 5 over support x {0.5} x active; every distinct recording order of each"
+        } else {
+            "all multisets (up to actor/evidence renaming) of size <= 2 over 3 actors x 8 evidence subsets x 3 stances x {0.2,0.5,0.8} x {active,retracted}; size 3 over 2 stances x {0.5,0.8} x active; size 4 over support x {0.5} x active; every distinct recording order of each"
+        }));
+    }
+    if run.wants("random") {
+        run.parallel("random", t.pick(1200, 40000), 0.9, |c, rng, st| random_case(c, rng, st, thorough));
+    }
+    for s in ["accepted", "contested", "rejected", "insufficient", "uncertain"] {
+        run.floor(&format!("status_{s}"), 50);
+    }
+    run.floor("ref_comparisons", 5000);
+    run.floor("bridge_merging_cases", 100);
+    run.floor("permutations_compared", 1000);
+    run.floor("functional_rival_cases", 100);
+    run.floor("only_excluded_cases", 50);
+    for c in ["retracted", "superseded", "temporal", "mode", "visibility"] {
+        run.floor(&format!("excluded_{c}"), 30);
+    }
+    run.floor("threshold_override_queries", 200);
+    for k in ["repeat_same_actor", "shared_evidence_new_voice", "louder_repeat", "bridge"] {
+        run.floor(&format!("add_law_{k}"), 20);
+    }
+    run.floor("add_law_bridge_merged_groups", 5);
+    run.floor("query_form_3", 100);
+    run.floor("kml_assert_sugar", 100);
+    run.floor("kml_create_assertion", 100);
+    run.floor("exhaustive_arrangements", 1000);
+    run.finish();
 }
